@@ -86,6 +86,16 @@ def reader_getData(it, comp, args, kwargs, line):
     name = args[0]
     key = pair_key(name, comp)
     gcount(ctx, 'fetch_n', key)
+    srcs = ctx.ghost.get('sources_seq')
+    if srcs is not None:
+        # C08: sources are consulted in the order they were added - the n-th request for a name goes to the n-th source
+        cur = gget(ctx, 'fetch_cnt', kenc(name))
+        n = z3.If(cur == pv.PAbsent, z3.IntVal(0), PV.i(cur))
+        ref = comp.ref if isinstance(comp, VComp) else lift(comp)
+        ctx.oblige('compiler.compile.sources_are_consulted_in_the_order_added',
+                   z3.And(n >= 0, n < z3.Length(srcs), srcs[n] == ref), line, 'model',
+                   info={'clause': 'the n-th getData(name) call of a look-up goes to self._sources[n]'})
+    gcount(ctx, 'fetch_cnt', kenc(name))            # calls per requested name, all sources together
     ctx.ghost['h_cur_req'] = name
     ctx.ghost['h_trees'] = 0
     ctx.ghost['reader_calls'] = ctx.ghost.get('reader_calls', 0) + 1
@@ -96,6 +106,7 @@ def reader_getData(it, comp, args, kwargs, line):
     ctx.ghost['reader_last_kwargs'] = kw
     ctx.ghost['reader_last_name'] = name
     d = ctx.choose(3, 'reader.getData@%s' % line)
+    gset(ctx, 'fetch_last', kenc(name), lift(['ok', 'notfound', 'error'][d]))
     if d == 0:
         gset(ctx, 'fetch_res', key, lift('ok'))
         ctx.cover('reader.ok')
@@ -111,6 +122,17 @@ def reader_getData(it, comp, args, kwargs, line):
 
 def parser_parse(it, comp, args, kwargs, line):
     ctx = it.ctx
+    last = ctx.ghost.get('reader_last')
+    if ctx.ghost.get('check_parsed_text'):
+        # C08: the text handed to the parser is the text the source just returned for this name
+        if isinstance(last, tuple):
+            want = lift(last[1])
+        elif last is None:
+            want = pv.PAbsent               # no source was asked before the parser is called
+        else:
+            want = PV.sitems(lift(last))[1]
+        ctx.oblige('compiler.compile.parser_gets_the_fetched_text', lift(args[0]) == want, line, 'model',
+                   info={'clause': 'parser.parse(<text returned by the last source.getData call>)'})
     d = ctx.choose(2, 'parser.parse@%s' % line)
     if d == 0:
         trees = VList(seq=ctx.fresh(pv.PVSeq, 'trees'))     # any number of modules, zero included
@@ -132,9 +154,17 @@ def symbolgen_genCode(it, comp, args, kwargs, line):
         ctx.ghost['h_alias'] = hist_or(ctx, 'h_alias', z3.Not(pv.as_term_bool(veq(SStr(modname(lift(tree))), req))))
     d = ctx.choose(2, 'symbolgen.genCode@%s' % line)
     if d == 0:
+        if req is not None:
+            gset(ctx, 'resolved', kenc(req), lift(True))     # the look-up of req produced (at least) this module
         mi = VObj('MibInfo')
         mi.fields['name'] = SStr(modname(lift(tree)))
         mi.fields['imported'] = VSeqIter(tree_imports(lift(tree)), elem='str')
+        U = ctx.ghost.get('U')
+        if U is not None:
+            # assumption of the termination argument: the names the sources can mention lie in a finite universe U
+            imps = tree_imports(lift(tree))
+            qi = z3.Const('q.ui.8', z3.IntSort())
+            ctx.assume(z3.ForAll([qi], z3.Implies(z3.And(qi >= 0, qi < z3.Length(imps)), U.to_arr()[imps[qi]])))
         mi.fields['revision'] = it.fresh_any('rev')
         mi.fields['oid'] = None
         return (mi, it.fresh_any('symtab'))
@@ -238,13 +268,13 @@ def writer_getData(it, comp, args, kwargs, line):
 
 HIST = ['h_alias', 'h_multi', 'h_empty', 'h_cur_req', 'h_trees']
 GHOST_BY_METHOD = {
-    'getData': ['fetch_n', 'fetch_res', 'borrow_n', 'borrow_by_name', 'borrow_res', 'h_cur_req', 'h_trees'],
-    'source.getData': ['fetch_n', 'fetch_res', 'h_cur_req', 'h_trees'],
+    'getData': ['fetch_n', 'fetch_res', 'fetch_cnt', 'fetch_last', 'reader_last', 'borrow_n', 'borrow_by_name', 'borrow_res', 'h_cur_req', 'h_trees'],
+    'source.getData': ['fetch_n', 'fetch_res', 'fetch_cnt', 'fetch_last', 'reader_last', 'h_cur_req', 'h_trees'],
     'borrower.getData': ['borrow_n', 'borrow_by_name', 'borrow_res'],
     'parse': ['h_empty'],
     '_parser.parse': ['h_empty'],
-    'genCode': ['gen_n', 'gen_by_name', 'gen_info', 'h_alias', 'h_multi', 'h_trees'],
-    '_symbolgen.genCode': ['h_alias', 'h_multi', 'h_trees'],
+    'genCode': ['gen_n', 'gen_by_name', 'gen_info', 'h_alias', 'h_multi', 'h_trees', 'resolved'],
+    '_symbolgen.genCode': ['h_alias', 'h_multi', 'h_trees', 'resolved'],
     '_codegen.genCode': ['gen_n', 'gen_by_name', 'gen_info'],
     'fileExists': ['asked_n', 'asked_res', 'asked_cnt', 'fresh_seen'],
     'searcher.fileExists': ['asked_n', 'asked_res', 'asked_cnt', 'fresh_seen'],
@@ -256,6 +286,8 @@ GHOST_BY_METHOD = {
 def sp_ghost(it, args, kwargs):
     if args[0] == 'puts_total' or args[0].startswith(('h_', 'opt_', 'cb_', 'reader_')):
         return it.ctx.ghost.get(args[0], 0)
+    if args[0] == 'U':
+        return it.ctx.ghost['U']
     return gmap(it.ctx, args[0])
 
 
@@ -270,13 +302,19 @@ def sp_count(it, args, kwargs):
     return SInt(z3.If(cur == pv.PAbsent, z3.IntVal(0), PV.i(cur)))
 
 
+def sp_imports_of(it, args, kwargs):
+    """imports_of(tree): the module names the IMPORTS clause of a syntax tree mentions (what the symbol-table
+    generator reports as MibInfo.imported for that tree), as a typed sequence of strings"""
+    return VSeqIter(tree_imports(lift(args[0])), elem='str')
+
+
 def sp_modname(it, args, kwargs):
     return SStr(modname(lift(args[0])))
 
 
 def init_ghost(it, env, options=None):
     ctx = it.ctx
-    for g in ('fetch_n', 'fetch_res', 'asked_n', 'asked_res', 'asked_cnt', 'fresh_seen', 'gen_n', 'gen_by_name', 'gen_info', 'borrow_n',
+    for g in ('fetch_n', 'fetch_res', 'fetch_cnt', 'fetch_last', 'resolved', 'asked_n', 'asked_res', 'asked_cnt', 'fresh_seen', 'gen_n', 'gen_by_name', 'gen_info', 'borrow_n',
               'borrow_by_name', 'borrow_res', 'puts_n', 'put_ok', 'put_failed'):
         ctx.ghost[g] = VDict(arr=pv.EMPTY_ARR)
     ctx.ghost['puts_total'] = 0
@@ -292,7 +330,8 @@ def init_ghost(it, env, options=None):
 
 def install(world):
     from .. import pybuiltins as B
-    B.SPEC_FUNCS.update({'ghost': sp_ghost, 'pk': sp_pk, 'count': sp_count, 'modname': sp_modname})
+    B.SPEC_FUNCS.update({'ghost': sp_ghost, 'pk': sp_pk, 'count': sp_count, 'modname': sp_modname,
+                         'imports_of': sp_imports_of})
     C = world.comp_models
     C[('reader', 'getData')] = reader_getData
     C[('parser', 'parse')] = parser_parse
